@@ -231,8 +231,15 @@ def shared_smooth(rng, nbits, both):
 # ------------------------------------------------------- degenerate moduli
 
 def degenerate(rng, kind, bits):
-  """Moduli >= 2^63 of unusual shapes. Returns (n, description)."""
-  bits = max(bits, 64)
+  """Moduli >= 2^63 of unusual shapes."""
+  while True:
+    n = _degenerate(rng, kind, max(bits, 64))
+    if n.bit_length() >= 64:
+      return n
+    bits += 1
+
+
+def _degenerate(rng, kind, bits):
   if kind == 'prime':
     return rng.prime(bits)
   if kind == 'square':
